@@ -26,6 +26,9 @@ def run(tier):
     rnd = random.Random(common.seed())
     common.build("plain")
     wd = common.workdir("c15")
+    for cfgname in ("MC_ReaderUnit.cfg",):
+        r = common.tlc("ReaderImpl", cfgname, workers=8, timeout=900)
+        ck.require_ok("ReaderImpl/" + cfgname, r); ck.add_tlc("ReaderImpl/" + cfgname + " (NoReleaseBeforeVerify, HistoryIndependence, SequentialPrefix, EveryCallReturns)", r, "3 chunks x 3 cells, statuses ok/flip/undec, reads 1..4, chunk requests, 4 calls")
     files = zstd_files(rnd)
     cases = []   # (name, path-bytes, sizes, pre-lines, rf)
     ndec = 0
